@@ -40,6 +40,7 @@ type Op struct {
 	Early    bool            `json:"early,omitempty"`  // the result is handed to the slot before the producer calls any accessor on it
 	Reuse    bool            `json:"reuse,omitempty"`  // detect: the caller reuses one buffer (same address) for successive inputs
 	StatSize int             `json:"stat_size,omitempty"` // file / osfile: Stat reports StatSize-1 bytes (0: the accurate size)
+	NameExt  string          `json:"name_ext,omitempty"`  // file: the path ends in this extension (a name says nothing about the content)
 }
 
 func (o Op) String() string {
@@ -67,6 +68,9 @@ func (o Op) String() string {
 	}
 	if o.FileKind != "" {
 		s += " " + o.FileKind
+	}
+	if o.NameExt != "" {
+		s += " named *" + o.NameExt
 	}
 	return s
 }
@@ -220,6 +224,11 @@ func CanaryString(arr, i int) string { return fmt.Sprintf("verif-canary/%d-%d", 
 
 func simPath(ti, oi int) string { return fmt.Sprintf("%st%d/o%d", simio.Prefix, ti, oi) }
 
+// pathOf is the path of operation (ti, oi)'s simulated file, with the name extension the plan gives it.
+func (w *World) pathOf(ti, oi int) string {
+	return simPath(ti, oi) + w.Plan.Tasks[ti][oi].NameExt
+}
+
 // Materialise builds the world of a plan. Kernel goroutine, before the run.
 func Materialise(p *Plan, realDir string) *World {
 	w := &World{Plan: p, RealDir: realDir}
@@ -276,13 +285,15 @@ func Materialise(p *Plan, realDir string) *World {
 			}
 			switch op.FileKind {
 			case "":
-				simio.FS[simPath(ti, oi)] = &simio.FileSpec{Data: x, D: d, StatSize: op.StatSize}
+				simio.FS[w.pathOf(ti, oi)] = &simio.FileSpec{Data: x, D: d, StatSize: op.StatSize}
 			case "enoent":
-				simio.FS[simPath(ti, oi)] = &simio.FileSpec{OpenErr: syscall.ENOENT}
+				simio.FS[w.pathOf(ti, oi)] = &simio.FileSpec{OpenErr: syscall.ENOENT}
 			case "eacces":
-				simio.FS[simPath(ti, oi)] = &simio.FileSpec{OpenErr: syscall.EACCES}
+				simio.FS[w.pathOf(ti, oi)] = &simio.FileSpec{OpenErr: syscall.EACCES}
 			case "dir":
-				simio.FS[simPath(ti, oi)] = &simio.FileSpec{IsDir: true, D: simio.NoFault()}
+				simio.FS[w.pathOf(ti, oi)] = &simio.FileSpec{IsDir: true, D: simio.NoFault()}
+			case "fifo":
+				simio.FS[w.pathOf(ti, oi)] = &simio.FileSpec{Data: x, D: d, Fifo: true}
 			case "real":
 				if realDir != "" {
 					_ = stdos.WriteFile(w.realPath(ti, oi), x, 0o644)
@@ -305,7 +316,7 @@ func Materialise(p *Plan, realDir string) *World {
 }
 
 func (w *World) realPath(ti, oi int) string {
-	return filepath.Join(w.RealDir, fmt.Sprintf("t%do%d", ti, oi))
+	return filepath.Join(w.RealDir, fmt.Sprintf("t%do%d", ti, oi)+w.Plan.Tasks[ti][oi].NameExt)
 }
 
 // Cleanup removes the real files of the world.
@@ -383,6 +394,9 @@ func (w *World) RunPre() error {
 		op := &w.Plan.Pre[i]
 		if op.Kind != "extend" || op.Ext == nil {
 			return fmt.Errorf("pre op %d is not an extend", i)
+		}
+		if op.Ext.ParentExt >= 0 && strings.TrimSpace(op.Ext.Parent) == "" {
+			return fmt.Errorf("malformed plan: pre op %d hangs on extension #%d but names no parent", i, op.Ext.ParentExt)
 		}
 		if !w.register(op.Ext, nil) {
 			known := op.Ext.ParentExt < 0 // a built-in name must always be found
@@ -581,7 +595,7 @@ func (w *World) exec(t *core.Task, ti, oi int) {
 			consumed = func() int { p, _ := sr.Seek(0, io.SeekCurrent); return int(p) }
 		case "osfile":
 			// an *os.File the caller opened itself and hands to DetectReader
-			f, err := shimos.Open(simPath(ti, oi))
+			f, err := shimos.Open(w.pathOf(ti, oi))
 			if err != nil {
 				panic("harness: simulated file missing: " + err.Error())
 			}
@@ -614,7 +628,7 @@ func (w *World) exec(t *core.Task, ti, oi int) {
 		}
 		w.publish(op, m, res, ti, oi)
 	case "file":
-		path := simPath(ti, oi)
+		path := w.pathOf(ti, oi)
 		switch op.FileKind {
 		case "real", "real-dir":
 			path = w.realPath(ti, oi)
@@ -637,6 +651,9 @@ func (w *World) exec(t *core.Task, ti, oi int) {
 		res.R = lib.Observe(m)
 		if m != nil && op.Ext != nil {
 			for _, nm := range op.Ext.Names() {
+				if strings.TrimSpace(nm) == "" {
+					continue
+				}
 				res.IsNames = append(res.IsNames, nm)
 				res.Is = append(res.Is, m.Is(nm))
 			}
